@@ -16,7 +16,7 @@ import (
 func init() {
 	vfRegister(&vfProp{
 		id:        "C13",
-		classes:   []string{"readat", "read", "writeto", "writeat", "write", "readfrom", "readfromc", "srcsink"},
+		classes:   []string{"readat", "read", "writeto", "writeat", "write", "readfrom", "readfromc", "srcsink", "wrerr"},
 		gen:       c13Gen,
 		exec:      c13Exec,
 		enumerate: c13Enumerate,
@@ -59,6 +59,9 @@ func c13Gen(class string, seed uint64, tier string) *vfScenario {
 	sc.Cfg["size"] = int64(size)
 	sc.Cfg["start"] = int64(start)
 	kind := class
+	if class == "wrerr" {
+		kind = []string{"readat", "read", "writeto", "writeat", "write", "readfrom", "readfromc"}[rng.IntN(7)]
+	}
 	if class == "srcsink" {
 		kind = []string{"readfrom", "writeto", "readfromc"}[rng.IntN(3)]
 	}
@@ -89,6 +92,16 @@ func c13Gen(class string, seed uint64, tier string) *vfScenario {
 	nf := []int{0, 1, 1, 1, 2, 2, 3}[rng.IntN(7)]
 	if class == "srcsink" && rng.IntN(2) == 0 {
 		nf = 0
+	}
+	if class == "wrerr" && (size-start)%P != 0 && size < start+L {
+		size = start + (size-start)/P*P // keep the end of the file on a chunk boundary (see c13Exec)
+		sc.Cfg["size"] = int64(size)
+	}
+	if class == "wrerr" {
+		// no failing replies; instead the client's own transport starts failing at some write of the transfer
+		// (with one of the errors real transports return, io.EOF among them) while replies keep arriving
+		nf = 0
+		sc.Faults = append(sc.Faults, vfFault{K: "wrerr", At: int64(rng.IntN(2*nch + 3)), A: int64(rng.IntN(3)), B: int64(rng.IntN(3))})
 	}
 	perm := rng.Perm(nch + 1)
 	codes := rng.Perm(len(c13Codes))
@@ -166,7 +179,16 @@ type c13Fail struct {
 	msg  string
 }
 
+const c13Transport = 0xffff // pseudo status code: the request of this chunk could not be sent
+
+var c13WrErrs = []error{vfErrWriteFault, io.EOF, io.ErrClosedPipe}
+
 func c13ErrMatches(err error, f c13Fail) bool {
+	switch f.code {
+	case c13Transport:
+		// the transport's error, wrapped or not, but never a bare io.EOF (that means "end of file")
+		return err != nil && err != io.EOF
+	}
 	switch f.code {
 	case wsPermDenied:
 		return err == os.ErrPermission
@@ -194,6 +216,15 @@ func c13Exec(r *vfRun) {
 		op.Off = start // one source of truth for the transfer's start (keeps shrunk scenarios consistent)
 	}
 	isRead := op.K == "readat" || op.K == "read" || op.K == "writeto"
+	for _, f := range sc.Faults {
+		if f.K == "wrerr" && isRead && (int64(size)-start)%int64(P) != 0 && int64(size) < start+int64(op.N) {
+			// A chunk that comes back short is completed by a second request for its rest: with a transport
+			// fault in play the oracle's one-request-per-chunk bookkeeping would not be exact. The generator
+			// keeps the end of the file on a chunk boundary for this class; shrunk scenarios may not.
+			r.res.Skipped = "invalid-program"
+			return
+		}
+	}
 	content := vfFill(tag^1, 0, size)
 	if isRead {
 		srv.files["/f"] = append([]byte(nil), content...)
@@ -217,6 +248,13 @@ func c13Exec(r *vfRun) {
 	}
 	armed := false
 	fired := map[int]bool{}
+	arrived := map[int]bool{} // chunk indices whose request reached the peer after arming
+	var wrFault *vfFault
+	for i := range sc.Faults {
+		if sc.Faults[i].K == "wrerr" {
+			wrFault = &sc.Faults[i]
+		}
+	}
 	srv.override = func(rq *ssReq) []byte {
 		q := rq.q
 		if !armed || (q.Type != wtRead && q.Type != wtWrite) {
@@ -226,6 +264,7 @@ func c13Exec(r *vfRun) {
 			return nil
 		}
 		idx := int((int64(q.Offset) - start) / int64(P))
+		arrived[idx] = true
 		if f, ok := fails[idx]; ok {
 			fired[idx] = true
 			sim.count("fault.peer.status")
@@ -242,6 +281,12 @@ func c13Exec(r *vfRun) {
 	tk := vfSpawnTask(sim, 0, len(prog), func(i int) {
 		if prog[i].K == "arm" {
 			armed = true
+			if wrFault != nil {
+				srv.c2s.wrFaultAt = srv.c2s.writes + int(wrFault.At)
+				srv.c2s.wrShort = int(wrFault.A) * 2
+				srv.c2s.wrErr = c13WrErrs[int(wrFault.B)%len(c13WrErrs)]
+				srv.c2s.wrPartial = true // otherwise "did the peer get that request?" has two right answers
+			}
 			return
 		}
 		results[i] = env.do(prog[i])
@@ -261,6 +306,21 @@ func c13Exec(r *vfRun) {
 			r.fail("C13/setup", "setup", "setup op %+v failed: %v", prog[i], rr.Err)
 			return
 		}
+	}
+	wrFired := sim.stats["fault.c2s.wrerr"] > 0
+	if wrFired {
+		// the chunk at the lowest offset whose request never reached the peer plays the part of the failing chunk
+		span := op.N
+		if op.K == "writeto" && size > span {
+			span = size // WriteTo goes to the end of the file, whatever N says
+		}
+		for i := 0; i <= (span+P-1)/P+1; i++ {
+			if !arrived[i] {
+				fails[i] = c13Fail{idx: i, code: c13Transport, msg: "request not sent"}
+				break
+			}
+		}
+		sim.count("probe.transfer_hit_by_write_fault")
 	}
 	// lowest failing chunk that the transfer can reach
 	var idxs []int
@@ -457,7 +517,7 @@ func c13Exec(r *vfRun) {
 	if sim.stats["probe.peer.reordered"] > 0 && nfired > 0 {
 		sim.count("probe.failure_with_reordered_replies")
 	}
-	r.res.NonTrivial = nfired > 0 || srcFailAt >= 0 || sinkFailAt >= 0
+	r.res.NonTrivial = nfired > 0 || srcFailAt >= 0 || sinkFailAt >= 0 || wrFired
 }
 
 func min64(a, b int64) int64 {
